@@ -84,6 +84,9 @@ func (j *Job) Cancel() {
 		j.s.lock.Unlock()
 		return
 	}
+	// Record the outcome before the waiters are released below: Wait and IsDone
+	// only look at done and do not take the lock.
+	j.Status = StatusCanceled
 	if j.s.jobs == nil || len(j.s.jobs) == 0 {
 		close(j.done)
 		j.Status, j.done = StatusCanceled, nil
